@@ -50,7 +50,7 @@ def hasStorage (k : Nat) : Bool := k == 114 || k == 105 || k == 83 || k == 116 |
 def deadMask : Gen Nat := Gen.oneOf [0x0500, 0x0200, 0x0000, 0x2500, 0x0A00, 0x0400, 0x0600]
 def liveMask : Gen Nat := Gen.oneOf [0x0900, 0x0900, 0x0100, 0x0300, 0x0B00, 0x2900, 0x0D00]
 
-/-- an inline-compressed or an out-of-line value as PostgreSQL stores it (open finding A02): the datum, the original bytes,
+/-- an inline-compressed (read since fixes/rows/09) or an out-of-line value as PostgreSQL stores it (open finding A02): the datum, the original bytes,
 and for an out-of-line value the entry of the TOAST relation.  LZ4 only from PostgreSQL 14 on. -/
 def genToastDatum (ver toastRel valueId : Nat) : Gen (Datum × Bytes × Option Spec.Toast.ToastValue) := do
   let genC (n : Nat) : Gen Spec.Toast.Content := do
@@ -59,8 +59,12 @@ def genToastDatum (ver toastRel valueId : Nat) : Gen (Datum × Bytes × Option S
   match ← Gen.below 2 with
   | 0 =>
     let c ← genC (← Gen.range 40 300)
-    if decide c.WF ∧ c.stored.length < 1500 then return (.compressed c.stored, c.original, none)
-    else return (.long c.original, c.original, none)
+    let z : Option Comp := match c with | .pglz ts => some (.pglz ts) | .lz4 b => some (.lz4 b) | .plain _ => none
+    match z with
+    | some z =>
+      if decide c.WF ∧ decide z.WF ∧ c.stored.length < 1500 then return (.compressed z, c.original, none)
+      else return (.long c.original, c.original, none)
+    | none => return (.long c.original, c.original, none)
   | _ =>
     let content ← (do if ← Gen.bool then genC (← Gen.range 100 3000) else return .plain (← Toast.genBytes (← Gen.range 1 5000)))
     let cuts ← Toast.genCuts content.stored.length
@@ -68,10 +72,9 @@ def genToastDatum (ver toastRel valueId : Nat) : Gen (Datum × Bytes × Option S
     if decide v.WF then return (.external ((Spec.Toast.encExtPtr (Spec.Toast.ptrOf v)).drop 2), content.original, some v)
     else return (.long (content.original.take 200), content.original.take 200, none)
 
-/-- replace out-of-line / compressed datums (C08's business, finding A02) by inline ones -/
+/-- replace out-of-line datums (C08's business, finding A02) by inline ones; inline-compressed values stay (fixes/rows/09) -/
 def inlineOf : Option Datum → Gen (Option Datum)
   | some (.external _) => do return some (.short (← genPayload (← Gen.range 0 20)))
-  | some (.compressed _) => do return some (.long (← genPayload (← Gen.range 0 40)))
   | d => pure d
 
 def genInlineRow (cols : List Col) (liveBias : Bool) : Gen RowV := do
